@@ -64,7 +64,7 @@ STRENGTHENED = {
     'C06_6': 'missed at first: C06 did not require an abort from an originator that had sent its last data packet; on J1939-21 that wait is for a CTS or the acknowledgement, the exemption now applies to J1939-22 only',
     'C10_8': 'missed at first (a session number released twice: by the abort handler and by the job thread); C10 now submits two messages the moment the stack has processed a peer\'s abort, before the job thread\'s next pass',
     'C03_5': 'reported with exit code 2 at first: the stack handed send_message a data value of 256 and the simulated port raised from its own conversion; now violation clause illegal-frame',
-    'C01_8': 'caught by C08 at first; since application calls can be parked at a source line also by C01',
+    'C01_8': 'caught by C08 (pre-emption of the job thread during its pass), not by C01 itself',
     'C09_8': 'NOT CAUGHT: needs the receiving thread suspended between two statements of a handler while the job thread is awake; reception runs in scheduler context in this simulator and no property quantifies over that schedule (DESIGN 10, 12.9)',
     # ---- round 5 (one agent per property again, 133 earlier titles to stay away from)
     'C12_8': 'missed at first (a periodic callback that removes another timer due in the same pass and adds a new one in the same invocation: the list keeps its length); C12 callbacks can now perform several operations in one invocation, from one-shot operator timers and from periodic user callbacks',
